@@ -148,6 +148,18 @@ fn normalize_basic_value_for_boundaries(
                 gen_adjust_x_for_lower_boundary(inner_type, &lower, max_correction.clone());
             let adjust_x_upper =
                 gen_adjust_x_for_upper_boundary(inner_type, &upper, max_correction);
+            // In a half-open range that is a single step wide the limited correction rounds
+            // away: the inclusive boundary is then the only valid value.
+            let fallback_to_upper = if lower.is_inclusive {
+                quote!()
+            } else {
+                quote!(let x = if x <= #lower_value { #upper_value } else { x };)
+            };
+            let fallback_to_lower = if upper.is_inclusive {
+                quote!()
+            } else {
+                quote!(let x = if x >= #upper_value { #lower_value } else { x };)
+            };
             quote! {
                 let from0to1 = #arbitrary_in_01_range;
 
@@ -162,6 +174,8 @@ fn normalize_basic_value_for_boundaries(
                 // Make sure we satisfy the exclusive boundaries
                 let x = #adjust_x_lower;
                 let x = #adjust_x_upper;
+                #fallback_to_upper
+                #fallback_to_lower
                 #keep_finite_upwards
                 #keep_finite_downwards
                 x
